@@ -56,7 +56,7 @@ pub fn c05(ctx: &mut Ctx) -> (u64, String) {
     let mut nontrivial = 0u64;
     let mut classes = [0u64; 4];
     // (1) all 2048 frames through Ps2Decoder::add_word
-    let dec = Ps2Decoder::new();
+    let mut dec = Ps2Decoder::new();
     for w in 0..2048u16 {
         let want = r_frame(w);
         let got = catch_unwind(AssertUnwindSafe(|| dec.add_word(w)));
@@ -584,6 +584,9 @@ pub fn ps2_default_check(ctx: &mut Ctx) {
 pub enum BitAct {
     Bit(bool),
     Clear,
+    /// a whole-word decode on the same object in the middle of a bit-serial frame: it must answer like R-FRAME
+    /// and leave the frame in progress alone
+    Word(u16),
 }
 
 pub struct FrameSys {
@@ -591,7 +594,17 @@ pub struct FrameSys {
 }
 impl FrameSys {
     pub fn new() -> Self {
-        FrameSys { alphabet: vec![BitAct::Bit(false), BitAct::Bit(true), BitAct::Clear] }
+        FrameSys {
+            alphabet: vec![
+                BitAct::Bit(false),
+                BitAct::Bit(true),
+                BitAct::Clear,
+                BitAct::Word(encode(0x1C)),
+                BitAct::Word(encode(0xF0) ^ 1),        // bad start bit
+                BitAct::Word(encode(0xE0) ^ (1 << 9)), // parity error
+                BitAct::Word(encode(0x77) ^ (1 << 10)), // bad stop bit
+            ],
+        }
     }
 }
 
@@ -610,7 +623,9 @@ impl Sys for FrameSys {
         let mut d = s.0 .0.clone();
         match a {
             BitAct::Clear => {
-                let r = catch_unwind(AssertUnwindSafe(|| d.clear()));
+                let r = catch_unwind(AssertUnwindSafe(|| {
+                    let _ = d.clear();
+                }));
                 let out = if r.is_ok() { "()".to_string() } else { "PANIC".to_string() };
                 let bad = if r.is_err() {
                     Some(Bad { key: format!("ps2/clear-panics/{}bits", s.2), text: "Ps2Decoder::clear panicked".into(), expected: "()".into(), observed: out.clone() })
@@ -618,6 +633,26 @@ impl Sys for FrameSys {
                     None
                 };
                 Step { next: (Rid(d), 0, 0), out, bad }
+            }
+            BitAct::Word(w) => {
+                let r = catch_unwind(AssertUnwindSafe(|| d.add_word(*w)));
+                let want = r_frame(*w);
+                let out = match &r {
+                    Ok(x) => fmt_byte(x),
+                    Err(_) => "PANIC".to_string(),
+                };
+                let bad = if matches!(&r, Ok(x) if *x == want) {
+                    None
+                } else {
+                    Some(Bad {
+                        key: format!("ps2/add_word-midframe/0x{:03X}", w),
+                        text: format!("with {} frame bits pending, add_word(0x{:03X}) must give {} but gives {}", s.2, w, fmt_byte(&want), out),
+                        expected: fmt_byte(&want),
+                        observed: out.clone(),
+                    })
+                };
+                // the shadow frame is unchanged: whole-word decoding does not feed the shift register
+                Step { next: (Rid(d), s.1, s.2), out, bad }
             }
             BitAct::Bit(b) => {
                 let r = catch_unwind(AssertUnwindSafe(|| d.add_bit(*b)));
@@ -661,6 +696,7 @@ fn act_ops(a: &BitAct) -> Op {
     match a {
         BitAct::Bit(b) => Op::Bit(*b),
         BitAct::Clear => Op::Clear,
+        BitAct::Word(w) => Op::Word(*w),
     }
 }
 
